@@ -92,6 +92,27 @@ struct CmpT : CmpBase<3, true> {  // transparent
   using is_transparent = std::true_type;
 };
 
+// stateless (empty) comparator types, like std::less / std::greater: FlatSet::merge takes its linear path for them
+struct CmpL {
+  CmpL() = default;
+  explicit CmpL(int) {}
+  bool operator()(const E &a, const E &b) const {
+    ++R.cmpCalls;
+    return valOf(a) < valOf(b);
+  }
+  int cm() const { return 0; }
+};
+struct CmpG {
+  CmpG() = default;
+  explicit CmpG(int) {}
+  bool operator()(const E &a, const E &b) const {
+    ++R.cmpCalls;
+    return valOf(b) < valOf(a);
+  }
+  int cm() const { return 1; }
+};
+static_assert(std::is_empty<CmpL>::value && std::is_empty<CmpG>::value, "");
+
 #ifndef CFG_TYPES
 #define CFG_TYPES amc::FlatSet<E, Cmp, A<E>>
 #endif
@@ -145,6 +166,16 @@ template <>
 struct CmpId<CmpT> {
   static constexpr int id = 3;
   static constexpr bool transparent = true;
+};
+template <>
+struct CmpId<CmpL> {
+  static constexpr int id = 4;
+  static constexpr bool transparent = false;
+};
+template <>
+struct CmpId<CmpG> {
+  static constexpr int id = 5;
+  static constexpr bool transparent = false;
 };
 
 static const char *elemName() {
